@@ -362,6 +362,100 @@ func VH_C18_GroupLookupFaults() {
 	vhReach("group-faults-done")
 }
 
+// The same faults during the lookups an INSERT or UPDATE makes on its way: the
+// collision-limit probe of a group that is at the limit (a Get in disguise),
+// the element count of an external group (a ledger read), and the search in
+// the group itself. A caller-supplied component that fails from its k-th call
+// on makes the request fail with an external error -- never with the
+// collision-limit error, never key-not-found -- and the map is as it was. With
+// healthy components the same request gives the collision-limit error for an
+// absent key at the limit and succeeds for a present one.
+//
+//vh:prop C18 C12
+//vh:param singles 1 2
+//vh:param gsize 3 3
+func VH_C18_GroupSetFaults() {
+	vhSetThreshold(256)
+	storage := &vLogStorage{BasicSlabStorage: vhNewBasicStorage()}
+	addr := vhAddr(1)
+	b := &vDigesterBuilder{levels: 4}
+	if vhChoose("listmode", 2) == 1 {
+		b.levels = 1
+	}
+	nsingle := vhChoose("nsingle", vhParam("singles", 1)+1)
+	gsize := 2 + vhChoose("gsize", vhParam("gsize", 3)-1)
+	gpos := vhChoose("gpos", nsingle+1)
+	external := vhChoose("external", 2) == 1
+	deep := b.levels > 1 && vhChoose("deep", 2) == 1
+	m, model, gidx := vhBuildGroupMapDeep(storage, addr, b, nsingle, gsize, gpos, external, deep)
+	// the limit counts the entries of the first-level group (distinct second-level
+	// digests): a group whose members all sit in one nested group counts as one
+	atLimit := !deep && vhChoose("atlimit", 2) == 1
+	if atLimit {
+		maxCollisionLimitPerDigest = uint32(gsize - 1)
+	}
+	storage.writes = 0
+	gd0 := model[gidx[0]].key.d[0]
+	var key vKey
+	present := vhChoose("present", 2) == 1
+	if present {
+		key = model[gidx[vhChoose("member", len(gidx))]].key
+	} else {
+		key = vhNewKey(9999)
+		key.d[0] = gd0
+	}
+	calls := 0
+	failFrom := 0
+	cmp := func(s SlabStorage, v Value, st Storable) (bool, error) {
+		calls++
+		if failFrom != 0 && calls >= failFrom {
+			return false, fmt.Errorf("injected comparator failure")
+		}
+		return vhCompare(s, v, st)
+	}
+	injected := false
+	switch vhChoose("component", 3) {
+	case 0:
+		failFrom = 1 + vhChoose("failfrom", gsize)
+	case 1:
+		storage.retrCalls = 0
+		storage.retrFailAt = 1
+	case 2:
+		// healthy components
+	}
+	old, err := m.Set(cmp, vhHip, key, vElem{tag: 4242, size: 9})
+	if failFrom != 0 && calls >= failFrom {
+		injected = true
+	}
+	if storage.retrFailAt != 0 && storage.retrCalls >= 1 {
+		injected = true
+	}
+	storage.retrFailAt = 0
+	maxCollisionLimitPerDigest = 255
+	if injected {
+		vhAssert(err != nil, "set: callback failure surfaces")
+		vhAssert(vhIsExternal(err), "set: callback failure is an external error")
+		vhAssert(!vhIsCollisionLimit(err), "set: callback failure is not reported as the collision limit")
+		vhAssert(!vhIsKeyNotFound(err), "set: callback failure is not reported as key-not-found")
+		vhAssert(storage.writes == 0, "set: failed request stores/removes nothing")
+		vhCheckMap(m, addr, model, "after faulty set")
+		vhReach("group-set-faulted")
+		return
+	}
+	if !present && atLimit {
+		vhAssert(vhIsCollisionLimit(err), "set: absent key at the limit is refused with the collision-limit error")
+		vhAssert(storage.writes == 0, "set: refused request stores/removes nothing")
+		vhCheckMap(m, addr, model, "after refused set")
+		vhReach("group-set-refused")
+		return
+	}
+	vhAssert(err == nil, "set: healthy request succeeds")
+	if err == nil {
+		vhAssert((old != nil) == present, "set: previous value returned exactly for a present key")
+	}
+	vhReach("group-set-done")
+}
+
 // A failing LEDGER read during a lookup on a container opened cold over a
 // persistent storage (real codec): the lookup reports an external error, and
 // nothing is remembered about the failure -- the same lookup through the same
